@@ -220,3 +220,13 @@ Proof.
   rewrite (hd_loop_fuel L (S (S (length buf))) fuel h buf Hok) by (try exact Hn; unfold hd_need; destruct (fl_started (hd_field h)); lia).
   rewrite HW. unfold result_of. destruct (hd_loop fuel L h buf) as [[h' rest] p]. reflexivity.
 Qed.
+
+(* message_headers::clear(): whatever the header block holds, it is reset to the model's initial one *)
+Theorem hd_clear_is_the_source L fuel h inp :
+  hexec (fl_lim L) (hd_lim L) (fl_code_of L) fuel hd_clear_src (mk_hst (hd_store h) inp) = Some (LNormal, mk_hst (hd_store hd_init) inp).
+Proof.
+  destruct h as [flds f v fa cr len]. unfold hd_clear_src, hd_store.
+  destruct fuel; cbn [hexec heval h_store h_in hs_fields hs_field hs_nums hset set_nth b2n fc_clear fl_code_of
+                      M_Parse.hd_fields M_Parse.hd_field M_Parse.hd_valid M_Parse.hd_fail M_Parse.hd_cr M_Parse.hd_length hd_init];
+    rewrite fl_clear_is_the_source; reflexivity.
+Qed.
